@@ -275,3 +275,30 @@ func tailDelegate(fn *ssa.Function) *ssa.Function {
 	}
 	return out
 }
+
+// selectCaseBlock returns the block entered when a select chooses state idx.
+func selectCaseBlock(sel *ssa.Select, idx int) *ssa.BasicBlock {
+	var out *ssa.BasicBlock
+	for _, r := range *sel.Referrers() {
+		ex, ok := r.(*ssa.Extract)
+		if !ok || ex.Index != 0 {
+			continue
+		}
+		for _, rr := range *ex.Referrers() {
+			bo, ok := rr.(*ssa.BinOp)
+			if !ok || bo.Op != token.EQL {
+				continue
+			}
+			k, isK := an.ConstInt(bo.Y)
+			if !isK || int(k) != idx {
+				continue
+			}
+			for _, r3 := range *bo.Referrers() {
+				if ifi, ok := r3.(*ssa.If); ok {
+					out = ifi.Block().Succs[0]
+				}
+			}
+		}
+	}
+	return out
+}
